@@ -172,12 +172,20 @@ type c02In struct {
 }
 
 func c02Incoming(v ssa.Value, at *ssa.BasicBlock) []c02In {
+	return c02IncomingSeen(v, at, map[*ssa.Phi]bool{})
+}
+
+// c02IncomingSeen is c02Incoming with the set of phis already being expanded:
+// phis of a loop refer to each other (a -> b -> a); a phi met again is kept as
+// a leaf value instead of being expanded for ever.
+func c02IncomingSeen(v ssa.Value, at *ssa.BasicBlock, seen map[*ssa.Phi]bool) []c02In {
 	if ph, ok := v.(*ssa.Phi); ok {
+		seen[ph] = true
 		var out []c02In
 		for i, e := range ph.Edges {
 			pred := ph.Block().Preds[i]
-			if inner, ok := e.(*ssa.Phi); ok && inner != ph {
-				for _, in := range c02Incoming(inner, pred) {
+			if inner, ok := e.(*ssa.Phi); ok && inner != ph && !seen[inner] {
+				for _, in := range c02IncomingSeen(inner, pred, seen) {
 					in.Facts = append(in.Facts, c02EdgeFacts(pred, ph.Block())...)
 					out = append(out, in)
 				}
